@@ -42,6 +42,9 @@ ASSUMPTIONS = [
     "clause is about writes issued through the cache layer); SoftTTLCache additionally sees direct backing-store writes",
     "a read is judged with the interval rule: it may return any write overlapping it, or a completed write that no other "
     "write definitely follows before the read began; ties on timestamps are resolved in the permissive direction",
+    "write-through CachedStore: put/delete update the cache at their start and the backing store at their completion, and "
+    "KVStore has one write/delete latency, so start order = completion order = store order; there a completed write is also "
+    "superseded by any write that completed strictly later before the read began (overlapping writes are ordered by completion)",
     "TTL eviction policy gets the simulation clock as clock_func; RandomEviction/SampledLRUEviction get a case seed",
     "policy-tracked keys are observed by draining a deepcopy of the policy object through evict()",
     "MultiTierCache tiers are write-through CachedStores sharing the backing store (as in the module docstring)",
@@ -116,7 +119,33 @@ def workers_strategy(tier, ops, max_workers=3, max_ops=8, extra=None, gaps=(0, 0
     return st.lists(worker, min_size=1, max_size=max_workers)
 
 
+def hot_cached_strategy(tier):
+    """Hot-key shape: capacity 1-2 over 2-3 keys, 2-4 workers hammering key 0 with puts whose start offsets are smaller than
+    the backing write latency (several writes to one key in flight at once), interleaved with puts to other keys
+    (evictions), invalidations and gets of the hot key at every tick around the write completions; backing read latency
+    drawn independently and smaller than the write latency."""
+    big = tier == "thorough"
+    op = st.tuples(st.sampled_from(["put", "put", "put", "get", "get", "get", "get", "inv", "del", "flush"]),
+                   st.sampled_from([0, 0, 0, 0, 0, 1, 1, 2]), st.sampled_from([0, 0, 0, 1, 1, 2, 3]), st.just(0)).map(list)
+    worker = st.fixed_dictionaries({"start": st.integers(0, 7), "ops": st.lists(op, min_size=1, max_size=10 if big else 6)})
+    return st.fixed_dictionaries({
+        "policy": st.integers(0, 8),
+        "wt": st.sampled_from([True, True, True, True, False]),
+        "cap": st.sampled_from([1, 1, 1, 2]),
+        "nkeys": st.sampled_from([2, 2, 3]),
+        "rl": st.integers(1, 3), "wl": st.integers(3, 8), "cl": st.integers(0, 1),
+        "ttl": st.sampled_from([2, 8, 40]),
+        "seed": st.integers(0, 50),
+        "pre": st.lists(st.integers(0, 2), max_size=2),
+        "workers": st.lists(worker, min_size=2, max_size=4),
+    })
+
+
 def cached_strategy(tier):
+    return st.one_of(general_cached_strategy(tier), hot_cached_strategy(tier))
+
+
+def general_cached_strategy(tier):
     return st.fixed_dictionaries({
         "policy": st.integers(0, 8),
         "wt": st.booleans(),
@@ -130,9 +159,9 @@ def cached_strategy(tier):
     })
 
 
-def norm_workers(case, nkeys, disjoint=False, allowed=None):
+def norm_workers(case, nkeys, disjoint=False, allowed=None, max_workers=3):
     ws = []
-    raw = [w for w in (case.get("workers") or []) if isinstance(w, dict)][:3]
+    raw = [w for w in (case.get("workers") or []) if isinstance(w, dict)][:max_workers]
     nw = max(1, len(raw))
     if disjoint:
         nw = min(nw, nkeys)
@@ -166,10 +195,10 @@ def run_cached(case, obl, safe=False):
     wt = bool(case.get("wt", True))
     nkeys = _clamp(case.get("nkeys", 2), 2, 5)
     cap = _clamp(case.get("cap", 1), 1, 3)
-    rl, wl, cl = _clamp(case.get("rl", 2), 1, 6), _clamp(case.get("wl", 2), 1, 6), _clamp(case.get("cl", 0), 0, 1)
+    rl, wl, cl = _clamp(case.get("rl", 2), 1, 6), _clamp(case.get("wl", 2), 1, 8), _clamp(case.get("cl", 0), 0, 1)
     seed = _clamp(case.get("seed", 0), 0, 10 ** 6)
     keys = [f"k{i}" for i in range(nkeys)]
-    workers = norm_workers(case, nkeys, disjoint=safe, allowed=set(OPS))
+    workers = norm_workers(case, nkeys, disjoint=safe, allowed=set(OPS), max_workers=4)
     if safe and not wt:
         cap = max(cap, nkeys)
     multi = len(workers) > 1
@@ -240,10 +269,27 @@ def run_cached(case, obl, safe=False):
         if not set(cs.get_dirty_keys()) <= set(held):
             add(f"{P}/{obl}/dirty-not-cached", f"{where}: dirty {cs.get_dirty_keys()} cached {held}")
 
+    def drive_get(rec):
+        """drive cs.get(); the public miss counter read right after the synchronous first step tells hit from miss"""
+        gen = cs.get(rec.key)
+        before = cs.stats.misses
+        try:
+            y = next(gen)
+        except StopIteration as e:
+            return e.value
+        if cs.stats.misses > before:
+            rec.exc = "miss"
+        while True:
+            sent = yield y
+            try:
+                y = gen.send(sent)
+            except StopIteration as e:
+                return e.value
+
     def run_op(rec):
         op, k = rec.op, rec.key
         if op == "get":
-            return cs.get(k)
+            return drive_get(rec)
         if op == "put":
             rec.val = f"{rec.w}.{rec.i}"
             return cs.put(k, rec.val)
@@ -311,15 +357,15 @@ def run_cached(case, obl, safe=False):
                 return "dirty-evicted"
             if any(t <= upto and key == k for t, key in dirty_invalidated):
                 return "dirty-invalidated"
-            # a put reached the cache while a write-back of the same key was in flight
-            if any(w.src is not None and w.src.op == "put" and b[0] == k and b[2] < w.src.ss and (b[3] is None or w.src.ss < b[3])
-                   for w in writes[k] for b in backing_writes):
-                return "flush-races-put"
             # write-back delete drops the unflushed entry first and deletes from the backing store later: a read in
             # between sees the backing store's pre-write value
             if g is not None and any(w.src is not None and w.src.op == "del" and seq_overlap(g.ss, g.se, w.src.ss, w.src.se)
                                      for w in writes[k]):
                 return "read-during-delete"
+            # a put reached the cache while a write-back of the same key was in flight
+            if any(w.src is not None and w.src.op == "put" and b[0] == k and b[2] < w.src.ss and (b[3] is None or w.src.ss < b[3])
+                   for w in writes[k] for b in backing_writes):
+                return "flush-races-put"
         if any(x.key == k and x.start <= upto and seq_overlap(x.ss, x.se, w.src.ss, w.src.se)
                for x in gets for w in writes[k] if w.src is not None):
             return "fill-races-write"
@@ -330,7 +376,7 @@ def run_cached(case, obl, safe=False):
     for g in gets:
         if not g.done():
             continue
-        ok = acceptable_values(writes[g.key], g.start, g.end)
+        ok = acceptable_values(writes[g.key], g.start, g.end, by_completion=wt)
         if not any(w.val == g.res for w in ok):
             known = any(w.val == g.res for w in writes[g.key])
             clause = "stale-read" if known else "read-of-unwritten-value"
@@ -341,7 +387,7 @@ def run_cached(case, obl, safe=False):
     fl = next((o for o in log if o.w == closer and o.op == "flush"), None)
     if fl is not None and fl.done():
         for k in keys:
-            ok = acceptable_values(writes[k], fl.end, fl.end)
+            ok = acceptable_values(writes[k], fl.end, fl.end, by_completion=wt)
             have = kv.get_sync(k)
             if not any(w.val == have for w in ok):
                 add(f"{P}/{obl}/{classify(k, POS_INF)}/final-backing-value/{mode}",
@@ -361,8 +407,17 @@ def run_cached(case, obl, safe=False):
     put_in_writeback = sum(1 for k in keys for w in writes[k] for b in backing_writes
                            if w.src is not None and w.src.op == "put" and not wt and b[0] == k and b[2] < w.src.ss
                            and (b[3] is None or w.src.ss < b[3]))
-    r.target = float(3 * min(put_in_writeback, 3) + 2 * min(len(dirty_evicted), 3) + (2 if fill_overlap else 0) + (1 if overlap else 0))
+    # gets that missed while >= 2 writes (put/delete through the cache) to the same key were in flight
+    miss_2w = sum(1 for g in gets if g.exc == "miss" and
+                  sum(1 for w in writes[g.key] if w.src is not None and w.src.ss < g.ss and (w.src.se is None or g.ss < w.src.se)) >= 2)
+    miss_1w = sum(1 for g in gets if g.exc == "miss" and
+                  any(w.src is not None and w.src.ss < g.ss and (w.src.se is None or g.ss < w.src.se) for w in writes[g.key]))
+    r.target = float(3 * min(put_in_writeback, 3) + 2 * min(len(dirty_evicted), 3) + (2 if fill_overlap else 0) + (1 if overlap else 0)
+                     + 5 * min(miss_2w, 3) + 2 * min(miss_1w, 3))
+    if miss_2w:
+        r.nontrivial = True
     r.labels += [pol_name, mode, "evict" if stats["evictions"] else "no-evict",
+                 "miss-during-2-writes" if miss_2w else ("miss-during-1-write" if miss_1w else "no-miss-during-write"),
                  "put-during-writeback" if put_in_writeback else "no-put-during-writeback",
                  "dirty-evict" if dirty_evicted else "no-dirty-evict", "fill-overlap" if fill_overlap else "no-fill-overlap",
                  "overlap" if overlap else "sequential"]
@@ -871,7 +926,12 @@ OBLIGATIONS = [
                "CachedStore with one of the 9 eviction policies, write-through or write-back, capacity 1..3 over 2..5 keys, "
                "backing latencies 1..6 ticks; 1..3 workers with start offsets 0..8 ticks and gaps 0..5 ticks issue get/put/"
                "delete/invalidate/invalidate_all/flush so that operations overlap; a closing worker flushes and reads all keys; "
-               "non-trivial = a dirty key was evicted or a get overlapped a write of the same key"),
+               "half of the cases use the hot-key shape (capacity 1-2 over 2-3 keys, 2-4 workers issuing back-to-back puts to one key "
+               "with start offsets below the backing write latency 3..8, read latency 1..3, gets/invalidations of that key at "
+               "every tick around the write completions, puts to other keys as evictors), target() on gets that miss while >=2 "
+               "writes to the key are in flight; "
+               "non-trivial = a dirty key was evicted, a get overlapped a write of the same key, or a get missed while >=2 writes "
+               "to its key were in flight"),
     Obligation("cached-safe", cached_strategy, ex_cached_safe, {"quick": 2000, "thorough": 80000},
                "as `cached` on the domain where the open findings cannot occur: workers use disjoint key sets, write-back runs "
                "have capacity >= number of keys, dirty keys are not invalidated, only the closing worker flushes when workers are "
